@@ -174,6 +174,27 @@ def run(tier, seed, model_ok):
         for j, (what, ml) in enumerate(ms):
             trip.append(('%dm%d' % (i, j), 'B', vlib.hx('\n'.join(ml))))
         meta.append((lines, res, ms))
+    # fixed programs: a .set variable assigned from ANOTHER variable (or from pc) keeps the value it got there, whatever
+    # is assigned to the other one later ("the latest preceding assignment" of each name); symbol directives written while
+    # the data segment is current count like everywhere else
+    FIXED = [
+        (['.set base = 1', '.set idx = base + 1', '.set base = 0x20', ' ldi r16, idx', ' .dw idx, base'], ['', '', '', ' ldi r16, 2', ' .dw 2, 0x20']),
+        (['.set A = 3', '.set b = a * 2', '.set B = B + A', '.set a = 100', ' .dw b, a'], ['', '', '', '', ' .dw 9, 100']),
+        ([' nop', '.set here = pc', ' nop', ' nop', '.set there = here + 1', '.set here = pc', ' .dw there, here'], [' nop', '', ' nop', ' nop', '', '', ' .dw 2, 3']),
+        (['.set n = 1', '.def tmp = r16', '.dseg', '.set n = n + 1', '.undef tmp', '.def tmp = r20', 'buf: .byte 2', '.cseg', ' ldi tmp, n', ' ldi r17, low(buf)'],
+         ['', '', '.dseg', '', '', '', 'buf: .byte 2', '.cseg', ' ldi r20, 2', ' ldi r17, low(buf)']),
+        (['.dseg', '.def acc = r18', '.set k = 7', 'v: .byte 1', '.cseg', ' ldi acc, k', ' lds acc, v'], ['.dseg', '', '', 'v: .byte 1', '.cseg', ' ldi r18, 7', ' lds r18, v']),
+    ]
+    FIXED_FAIL = [('alias after .undef written in .dseg', ['.def tmp = r16', '.dseg', '.undef tmp', '.cseg', ' ldi tmp, 1']),
+                  ('second .def of a live alias', ['.def tmp = r16', '.def tmp = r3', ' ldi tmp, 1']),
+                  ('second .def of a live alias, other case', ['.def tmp = r16', '.def TMP = r17', ' inc tmp'])]
+    for lines_, res_ in FIXED:
+        i = len(meta)
+        trip.append(('%dp' % i, 'B', vlib.hx('\n'.join(lines_)))); trip.append(('%dr' % i, 'B', vlib.hx('\n'.join(res_))))
+        ms_ = FIXED_FAIL if lines_ is FIXED[0][0] else []
+        for j, (what, ml) in enumerate(ms_):
+            trip.append(('%dm%d' % (i, j), 'B', vlib.hx('\n'.join(ml))))
+        meta.append((lines_, res_, ms_))
     # one name defined twice, by every pair of defining constructs in both orders, then used as a value and as a
     # register: which of these the tool refuses is not said by the property (only duplicate labels are), so these
     # programs are compared with the model only - a change in what is refused shows as a disagreement
